@@ -35,6 +35,10 @@ What is FALSE of the code as written / observations (witnesses in section 5)
       a headed state's default `utility()` is 1: `utilize`/utilitarian `change` never prefers it to a
       sub-state of positive utility.  The property text does not define an anonymous head's utility:
       recorded as an observation (`headless_region_reports_zero`, `witness_N5`).
+      NOT harmless under `randomize`: when the only top-rank candidates of a Random region are headless
+      nested regions (anonymous head: rank 0, utility 0), nothing is selected although every `utility()`
+      answer is positive — `INVALID_PRONG`, `HFSM2_BREAK`, and an out-of-bounds read of `utilities[255]` in
+      the nested case (`witness_headless_random_selects_nothing`; new finding).
 * O1  `deepReportChange` of a SELECTABLE region resolves by resumable-or-0 and never calls `select()`,
       while `deepRequestChange` of the same region calls `select()` (`reportChange_selectable_ignores_select`).
 * O2  a utilitarian/random `change` (and `utilize`, `randomize`) marks ALL candidates' nested regions
@@ -388,6 +392,23 @@ theorem witness_N5 :
         (.cons false (.leaf 3 0) .nil))).request ⟨.utilize, none⟩
       (world [[.retUtil 1000], [.retUtil 1]] [])).1.requested = some 1 := by decide +kernel
 
+/-- N5 is not harmless (NEW FINDING, confirmed on the real library with UBSan).  Random region
+`R {x, headless-random {y, z}}`: `x` answers rank −1, the anonymous head's rank is `Rank{}` = 0, so the only
+top-rank candidate is the headless region, whose computed utility is 0 × … = 0 although EVERY `utility()`
+answer is positive.  `resolveRandom` selects nothing: `compoRequested = INVALID_PRONG`, `HFSM2_BREAK()`,
+and when `R` itself is a candidate of an enclosing resolution (`deepReportChangeRandom`) the C++ then
+reads `utilities[INVALID_PRONG]` — index 255 of a 2-element array (UBSan: "index 255 out of bounds for
+type 'float [2]'", machine.hpp `deepReportChangeRandom`).
+Harness replay: shape `(C h1 i0 random (C h1 i0 random (L i0) (C h0 i0 random (L i0) (L i0))) (L i0))`, `op 0 new`
+with `cb 2 rank … RR:-1` (any positive utilities). -/
+theorem witness_headless_random_selects_nothing :
+    let r := (Node.compo 1 1 0 true .random none none none false
+        (.cons false (.leaf 2 0)
+        (.cons false (.compo 3 2 0 false .random none none none false
+            (.cons false (.leaf 4 0) (.cons false (.leaf 5 0) .nil))) .nil))).request ⟨.randomize, none⟩
+      (world [[.retRank (-1)], [.retRank 0], [.retRank 0], [.retUtil 2], [.retUtil 3]] [1, 1])
+    r.1.requested = none ∧ r.2.err = some "resolveRandom selected nothing" ∧ r.2.rng = [] := by decide +kernel
+
 /-- O1: `deepReportChange` of a Selectable region is literally that of a Resumable one: it marks the
 resumable sub-state (or 0) and consumes no `select()` decision … -/
 theorem reportChange_selectable_ignores_select (id rid inj : Nat) (h : Bool) (a r q : Option Nat) (m : Bool)
@@ -489,6 +510,7 @@ Theorems that constitute property C12 (for `Props/INDEX.json`):
   (iv)  IEEE laws for Float32: trusted base (header comment)
   observations / witnesses:
         headless_region_reports_zero, witness_N5                          N5
+        witness_headless_random_selects_nothing                           N5 consequence (new finding: INVALID_PRONG + out-of-bounds read)
         reportChange_selectable_ignores_select, request_selectable_calls_select    O1
         witness_losers_keep_marks, witness_stale_mark_used                O2 (new finding; replay in the doc comment)
         witness_all_zero_selects_nothing, witness_rank_filter             out-of-contract / ties
